@@ -6,7 +6,7 @@ pub fn is_simpler_than(&self, other: &Self) -> bool
     self.denominator()
         .cmp(other.denominator())
         .then_with(|| /*@ -> (r: Ordering)
-            ensures r == cmp_int(iabs(self.0.numerator.v()), iabs(other.0.numerator.v())) @*/
+            ensures r == cmp_int(rabs(self.0.numerator.v()), rabs(other.0.numerator.v())) @*/
             self.numerator().abs_cmp(other.numerator()))
         .then_with(|| /*@ -> (r: Ordering)
             ensures r == sign_cmp(if other.0.numerator.v() < 0 { Sign::Negative } else { Sign::Positive },
